@@ -8,6 +8,7 @@ in every reachable state.
 import FeedVerif.Model.Mixin
 import FeedVerif.Model.Api
 import FeedVerif.Props.C20
+import FeedVerif.Lemmas.Mixin
 
 namespace FeedVerif.Mixin
 
@@ -84,11 +85,13 @@ theorem dispatch_entryInv (c : Core) (hn : Str) (attrsD : List (Str × Str)) (c'
               · exact setContext_entryInv _ _ _ base
             · exact base
     · split at hd
-      · cases hd
-      · simp only at hd
-        split at hd
-        · injection hd with hd; injection hd with h1 _; rw [← h1]; exact h
-        · injection hd with hd; injection hd with h1 _; rw [← h1]; exact setContext_entryInv _ _ _ h
+      · injection hd with hd; injection hd with h1 _; rw [← h1]; exact h
+      · split at hd
+        · cases hd
+        · simp only at hd
+          split at hd
+          · injection hd with hd; injection hd with h1 _; rw [← h1]; exact h
+          · injection hd with hd; injection hd with h1 _; rw [← h1]; exact setContext_entryInv _ _ _ h
 
 theorem pop_entryInv (o : Ops) (s : MSt) (el : Str) (h : EntryInv s.c) : EntryInv (pop o s el).c := by
   unfold pop
@@ -130,8 +133,11 @@ theorem step_entryInv (o : Ops) (s : MSt) (e : MEv) (s' : MSt) (h : EntryInv s.c
     · split at hs
       · injection hs with hs; rw [← hs]; intro hi; simp [endFinish] at hi
       · split at hs
-        · cases hs
-        · injection hs with hs; rw [← hs]; exact pop_entryInv o s _ h
+        · injection hs with hs; rw [← hs]
+          exact setContext_entryInv _ _ _ (pop_entryInv o s _ h)
+        · split at hs
+          · cases hs
+          · injection hs with hs; rw [← hs]; exact pop_entryInv o s _ h
   | data t =>
     simp only [mstep] at hs
     injection hs with hs
@@ -169,7 +175,7 @@ def Modelled (c : Core) : MEv → Prop
   | .start tag attrs =>
       ∀ o : Ops, (dispatchCore (startPre o c tag attrs).1 (handlerName (startPre o c tag attrs).1 tag) (startPre o c tag attrs).2).isOk = true
   | .stop tag => let h := handlerName c tag
-      (h == S "channel" || h == S "feed" || h == S "item" || h == S "entry" || !hasEnd h) = true
+      (h == S "channel" || h == S "feed" || h == S "item" || h == S "entry" || (dateKey h).isSome || !hasEnd h) = true
   | _ => True
 
 theorem step_total (o : Ops) (s : MSt) (e : MEv) (hm : Modelled s.c e) : ∃ s', mstep o s e = .ok s' := by
@@ -187,20 +193,22 @@ theorem step_total (o : Ops) (s : MSt) (e : MEv) (hm : Modelled s.c e) : ∃ s',
   | stop tag =>
     simp only [mstep, endTag]
     simp only [Modelled] at hm
-    split
-    · exact ⟨_, rfl⟩
-    · split
-      · exact ⟨_, rfl⟩
-      · split
-        · rename_i h1 h2 h3
-          simp only [Bool.or_eq_true, Bool.not_eq_true'] at hm h1 h2
-          rcases hm with ((((hm | hm) | hm) | hm) | hm)
-          · exact absurd (Or.inl hm) h1
-          · exact absurd (Or.inr hm) h1
-          · exact absurd (Or.inl hm) h2
-          · exact absurd (Or.inr hm) h2
-          · rw [hm] at h3; cases h3
-        · exact ⟨_, rfl⟩
+    by_cases c1 : (handlerName s.c tag == S "channel" || handlerName s.c tag == S "feed") = true
+    · simp only [c1, ↓reduceIte]; exact ⟨_, rfl⟩
+    · simp only [c1, Bool.false_eq_true, ↓reduceIte]
+      by_cases c2 : (handlerName s.c tag == S "item" || handlerName s.c tag == S "entry") = true
+      · simp only [c2, ↓reduceIte]; exact ⟨_, rfl⟩
+      · simp only [c2, Bool.false_eq_true, ↓reduceIte]
+        cases hdk : dateKey (handlerName s.c tag) with
+        | some kp => exact ⟨_, rfl⟩
+        | none =>
+          simp only
+          have c1' : (handlerName s.c tag == S "channel" || handlerName s.c tag == S "feed") = false := by simpa using c1
+          have c2' : (handlerName s.c tag == S "item" || handlerName s.c tag == S "entry") = false := by simpa using c2
+          simp only [Bool.or_eq_false_iff] at c1' c2'
+          simp only [c1'.1, c1'.2, c2'.1, c2'.2, hdk, Option.isSome_none, Bool.or_self, Bool.false_or, Bool.not_eq_true'] at hm
+          simp only [hm, Bool.false_eq_true, ↓reduceIte]
+          exact ⟨_, rfl⟩
   | data t => exact ⟨_, rfl⟩
   | ns p u => exact ⟨_, rfl⟩
 
